@@ -71,9 +71,7 @@ TestVerdict(r, n) ==
                                    /\ IgnAtEnd(r, r.ev[j].th, n)
           THEN "C19:spurious|ignored-thread"
      ELSE IF \E j \in Starts(r) : r.ev[j].ident \in extra /\ Idx(r, r.ev[j].t) < n
-                                   /\ ~EndedBy(r, r.ev[j].th, n)
           THEN IF \E j \in Starts(r) : r.ev[j].ident \in extra /\ Idx(r, r.ev[j].t) = 0
-                                        /\ ~EndedBy(r, r.ev[j].th, n)
                THEN "C19:wrong-test|existed-before-the-first-test"
                ELSE "C19:wrong-test"
      ELSE IF \E j \in Starts(r) : r.ev[j].ident \in extra /\ EndedBy(r, r.ev[j].th, n)
